@@ -324,8 +324,13 @@ def impl_tree(abbr, user_config):
             return None
         return [(a.name, val(a.value), vts.get(a.value_type, a.value_type), bool(a.boolean), bool(a.implied), bool(a.multiple))
                 for a in l]
+    import lorem_oracle as lo
     try:
-        tree = parse(abbr, Config(_copy.deepcopy(user_config)))
+        # lorem text under the deterministic oracle of the case (harness/lorem_oracle.py): the model gets the same draws
+        with lo.patched(lo.Oracle(lo.seed_of(abbr, user_config))):
+            tree = parse(abbr, Config(_copy.deepcopy(user_config)))
+    except lo.OracleLimit:
+        return ('recursion',)
     except Exception as e:  # noqa
         return classify_exc(e)
     out = []
@@ -359,16 +364,15 @@ def decode_tree(w):
 def compare_trees(ctx, label, cases):
     """cases: [(abbr, cfg)].  Runs markup.parse and the extracted tree model; counts disagreements."""
     from common import enc_str
-    from markup_util import enc_config, NotModelled, canon_cfg, mentions_lorem
+    from markup_util import enc_config, NotModelled, canon_cfg
+    from lorem_oracle import model_draws
     model = ctx.model('attr')
     if model is None:
         return
     wires, idx, impl = [], [], []
     for k, (abbr, cfg) in enumerate(cases):
-        if mentions_lorem(abbr, cfg):
-            continue
         try:
-            w = [1] + enc_config(cfg) + enc_str(abbr)
+            w = [1] + enc_config(cfg, model_draws(abbr, cfg)) + enc_str(abbr)
         except NotModelled:
             continue
         wires.append(w)
